@@ -616,6 +616,37 @@ def run_grain(case):
         prev = (psd, bnd)
     if len(g.avgR) != len(g.time) or len(g.time) != len(rows) + 1:
         bad('history-length', '%d times, %d mean sizes, %d observed steps' % (len(g.time), len(g.avgR), len(rows)))
+    # ---- the same model object used again: reset() restores the loaded distribution, LoadDistributionFunction loads it anew; the
+    #      second run must obey the same clauses as the first (state kept from the first run must not leak into it)
+    reuse = case.get('reuse')
+    if reuse and outcome is None:
+        nfirst = len(rows)
+        try:
+            if reuse == 'reset':
+                g.reset()
+            else:
+                g.LoadDistributionFunction(_dist(dist, cmin, cmax))
+            g.computeZenerRadius(stub)
+            startR = float(g.Rm(g.pbm.PSD))
+            start_last = float(g.pbm.PSD[-1])
+            m3 = float(np.sum(g.pbm.PSD * g.pbm.PSDsize ** 3))
+            if not abs(m3 - 1.0) <= 1e-12:
+                bad('third-moment/after-%s' % reuse, 'third moment %.17g after %s' % (m3, reuse))
+            g.solve(horizon * tau / case['calls'])
+        except StepLimit:
+            pass
+        except Exception as e:
+            bad('exception/after-%s' % reuse, '%s raised %s: %s' % (reuse, type(e).__name__, e))
+        else:
+            prevR2 = startR
+            for k, (t, psd, bnd, cen, avg) in enumerate(obs.rows[nfirst:]):
+                m3 = float(np.sum(psd * cen ** 3))
+                if not abs(m3 - 1.0) <= 1e-12:
+                    bad('third-moment/after-%s' % reuse, 'second run step %d: %.17g' % (k + 1, m3))
+                if zz == 0 and not avg >= prevR2 * (1 - 1e-12):
+                    bad('mean-size-decreases/after-%s%s' % (reuse, '/last-class-populated' if (k == 0 and start_last > 0) else ''),
+                        'second run (after %s) step %d: mean size %.17g -> %.17g without drag' % (reuse, k + 1, prevR2, avg))
+                prevR2 = avg
     if np.any(np.diff(g.time) <= 0):
         bad('time-not-increasing', 'grain time stamps are not strictly increasing')
     grew = len(rows) > 0 and g.avgR[-1] > g.avgR[0] * (1 + 1e-6)
@@ -882,6 +913,9 @@ def run(ctx):
                 for it in ['rk4', 'euler']:
                     for horizon, calls in ([(0.3, 1), (1.0, 2)] if quick else [(0.3, 1), (1.0, 2), (3.0, 3)]):
                         gcases.append({'dist': dist, 'z': zl, 'grid': grid, 'it': it, 'horizon': horizon, 'calls': calls})
+                        if zl in ('zero', 'small') and calls == 1:
+                            for reuse in ('reset', 'reload'):
+                                gcases.append({'dist': dist, 'z': zl, 'grid': grid, 'it': it, 'horizon': horizon, 'calls': calls, 'reuse': reuse})
     res = ctx.product_run('grain', 'checks.c18:run_grain', gcases, chunksize=1)
     nlim = sum(1 for r in res if 'step-limit' in str(r.get('outcome')))
     if nlim:
